@@ -1,6 +1,6 @@
 """C15 - least-squares and factorisation solvers return the optimum they claim (DESIGN §5 C15).
 
-Streams: chi2 (computechi2), pcomp, hmf_step (single astep/gstep/astepnn/gstepnn/normbase/reorder/badness
+Streams: chi2 (computechi2), chi2v (computechi2 with a one-dimensional amatrix), pcomp, hmf_step (single astep/gstep/astepnn/gstepnn/normbase/reorder/badness
 calls on a set state), hmf_solve (HMF(...).solve() in both modes, k-means start recorded through
 unittest.mock), pca (pca_solve).  Everything passes through LAPACK/BLAS, so model and oracle are compared
 at a tolerance (TOL), integers / masks exactly.
@@ -19,36 +19,52 @@ THEOREMS = [P + t for t in (
     'chi2_optimum', 'covar_is_inverse', 'var_diag', 'dof_count',
     'astep_optimum', 'gstep_optimum', 'gstep_eps_stationary_partial',
     'normbase_unit_rms', 'reorder_preserves_model', 'nn_steps_nonneg',
-    'pcomp_reconstructs', 'pca_coeff_is_projection', 'usemask_counts')]
+    'pcomp_reconstructs', 'pca_coeff_is_projection', 'usemask_counts',
+    # extension round
+    'chi2_is_min_value', 'chi2_vec_optimum', 'iterate_is_sweeps', 'sweep_badness_le', 'iterate_badness_antitone',
+    'astep_gradient_vanishes', 'gstep_gradient_vanishes', 'nn_zero_stays_zero', 'astepnn_fixed_point_kkt',
+    'pcomp_derived_uncorrelated', 'pca_final_state', 'pca_final_coeff_is_projection',
+    'gstepnn_fixed_point_kkt', 'findContiguous_block', 'iterateCols_block')]
 TOL = 1e-7          # model (own Gauss / Jacobi kernels) and oracles against LAPACK results, relative to the array's scale
 TOL_ITER = 2e-6     # whole HMF / pca_solve runs (several chained solves)
 TOL_F32 = 2e-4      # pca_solve: projections on the eigenspectra that are RETURNED (rounded to float32)
-RULE = ('chi2: full-rank n x m systems (m 1-6, n up to 40, condition < 1e3) with random zero weights; pcomp: latent-factor data '
+RULE = ('chi2: full-rank n x m systems (m 1-6, n up to 40, condition < 1e3) with random zero weights; chi2v: one-dimensional amatrix '
+        '(one template) of length 1-40; pcomp: latent-factor data '
         'matrices in the four standardize/covariance modes; hmf_step: low-rank + noise spectra with masked pixels (ivar = 0), '
-        'K 1-4, epsilon in {None, 0, >0}, signed and non-negative states; hmf_solve: both modes, fixed seeds, run twice; '
-        'pca: low-rank + noise spectra, masked pixels, niter 1-4, nkeep 1-3. A case is non-trivial when the real function '
+        'K 1-4, epsilon in {None, 0, >0}, signed and non-negative states; hmf_solve: both modes, fixed seeds, run twice, with all-zero '
+        'columns (in spectra, in invvar, or in their product only) at an edge, at both edges, in the middle, splitting the range into equal halves, several; '
+        'pca: low-rank + noise spectra, masked pixels, niter 1-4, nkeep 1-3, maxiter 0-3, objects without signal (constant, all-zero, two of them, '
+        'also at an index below nkeep) and objects without any good pixel. A case is non-trivial when the real function '
         'returned arrays that were compared with the model and the oracle; distinct = distinct generator payloads.')
 TRUSTED = ['hand-written model lean/PydlVerif/Model/Solvers.lean tied to the code by the I/O correspondence of this run (tolerance %g / %g)' % (TOL, TOL_ITER),
            'kernel parameters of the model: sqrt, svd, eigh, solve, argsort, kmeans (contracts are hypotheses of the theorems; '
            'the driver instantiates them with its own Gauss elimination / Jacobi rotation code, the harness samples the contracts on LAPACK\'s outputs)',
            'exact rational arithmetic (fractions.Fraction) and numpy.linalg.lstsq / eigvalsh as independent oracles']
-ASSUMPTIONS = ['float64 two-dimensional inputs; amatrix of computechi2 is N x M with full column rank on the positively weighted rows',
-               'HMF: no all-zero column in spectra / invvar / their product, kmeans returns K centroids, N >= 3K, M >= 3',
-               'pca_solve: maxiter = 0 (no rejection pass), every object has signal (goodobj all True), distinct leading eigenvalues',
+ASSUMPTIONS = ['float64 inputs; amatrix of computechi2 is N x M (or a vector of length N) with full column rank on the positively weighted rows',
+               'HMF: the longest contiguous block of columns that are not all-zero keeps >= 3K+3 columns with >= K+2 good pixels per spectrum and per column, '
+               'kmeans returns K centroids, N >= 4K+4',
+               'pca_solve: two-dimensional input, at least nkeep+2 objects with signal, distinct leading eigenvalues (near-degenerate cases are judged by the oracle only); '
+               'djs_reject is called without rejection limits (as pca_solve does), so the outer loop for maxiter > 0 never rejects a pixel',
                'pcomp: distinct eigenvalues (eigenvectors are compared up to sign)',
                'aliasing ("caller\'s arrays are not modified") and seed reproducibility are decided by the harness only (bit copies, re-run)']
-LEVEL_TEXT = ('Machine-checked Lean 4 theorems over an executable model of computechi2, pcomp, the HMF steps and the pca_solve '
-              'projection: the returned coefficients solve the normal equations and therefore minimise the weighted chi-square '
-              '(for all sizes, data and non-negative weights), covar is the inverse of A^T W A, var its diagonal, dof the count; '
-              'every HMF a-/g-update is the per-row / per-column WLS optimum and cannot increase badness (epsilon None/0), with '
-              'epsilon > 0 it is stationary given the old neighbours; unit-rms normalisation, rotation invariance of a.g, '
-              'non-negativity of the multiplicative updates; pcomp reconstruction identities from the eigh contract; usemask counts. '
+LEVEL_TEXT = ('Machine-checked Lean 4 theorems over an executable model of computechi2 (matrix and one-template form), pcomp, HMF (steps, whole sweeps, '
+              'zero-column removal) and pca_solve (all goodobj branches, outer loop for maxiter >= 0): the returned coefficients solve the normal equations '
+              'and therefore minimise the weighted chi-square (for all sizes, data and non-negative weights), the returned chi2 IS the chi-square at the '
+              'returned coefficients and the minimum value, covar is the inverse of A^T W A, var its diagonal, dof the count; '
+              'every HMF a-/g-update is the per-row / per-column WLS optimum, the partial derivatives of badness (identified through the exact quadratic '
+              'expansion along every coordinate) vanish after the step, and a WHOLE sweep astep; gstep; reorder; renormalise never increases badness '
+              '(epsilon None/0; rotation and unit-rms normalisation leave a.g unchanged), hence badness is non-increasing along iterate; with '
+              'epsilon > 0 a g-step is stationary given the old neighbours; non-negativity of the multiplicative updates, zeros stay zeros, a fixed point of the '
+              'non-negative a-update (g-update, epsilon None/0) satisfies the KKT stationarity on its non-zero entries; the column block HMF.iterate keeps is non-empty, in range and free of zero columns; pcomp reconstruction identities and uncorrelated derived '
+              'variables (covariance diag(eigenvalue^2)) from the eigh contract; pca_solve: in the result of the whole loop outmask = (ivar != 0), usemask counts, '
+              'and the returned coefficients are the weighted projections on the returned eigenspectra with the weights of the last iteration. '
               'The model is tied to the code on every run by I/O correspondence at tolerance and by independent oracles '
               '(exact rational least squares, lstsq, finite-difference gradients, bit copies, re-runs with the same seed).')
 LEVEL_NOTE = ('Partial: LAPACK svd/eigh/solve, libm sqrt, argsort and scipy kmeans are parameters with contracts assumed in the theorems '
               '(sampled numerically here); IEEE rounding is not modelled (theorems are over ordered fields); monotonicity of the '
-              'epsilon > 0 g-step is not proved, only searched; seed reproducibility and aliasing are harness-only; the goodobj=False '
-              'branch and maxiter > 0 of pca_solve and the zero-column removal of HMF.iterate are outside the model.')
+              'epsilon > 0 g-step is not proved, only searched; the non-negative updates are not proved to decrease badness (counted); '
+              'seed reproducibility and aliasing are harness-only; find_contiguous: the kept block is proved non-empty, in range, free of zero columns and at least as long as every scanned run (that the scan finds ALL maximal runs is compared, not proved); '
+              'one-dimensional newflux of pca_solve and kmeans returning fewer than K centroids are outside the model.')
 
 
 # ---------------------------------------------------------------- helpers
@@ -300,6 +316,77 @@ def _chi2(ctx, cases=None):
     _run_stream(ctx, _chi2_case, cases)
 
 
+def _chi2v_case(ctx, c):
+    """computechi2 with a ONE-dimensional amatrix (one template): nstar = 1"""
+    from pydl.pydlutils.math import computechi2
+    g = c['gen']
+    rs = np.random.RandomState(g['nseed'])
+    n = g['n']
+    a = rs.standard_normal(n) * g['ascale'] + g['offset']
+    b = a * rs.standard_normal() * g['signal'] + rs.standard_normal(n)
+    sq = np.exp(rs.uniform(-1.5, 1.5, size=n))
+    zero = rs.uniform(size=n) < g['pzero']
+    zero[:2] = False
+    sq[zero] = 0.0
+    if float(np.sum((a * sq) ** 2)) < 1e-3:
+        ctx.count('chi2v:generator-gave-up')
+        return
+    ctx.seen(c)
+    full = dict(c, input={'amatrix': _lst(a), 'b': _lst(b), 'sqivar': _lst(sq)})
+    before = _snap(a, b, sq)
+    try:
+        o = computechi2(b, sq, a)
+        order = ['acoeff', 'chi2', 'yfit', 'dof', 'covar', 'var']
+        np.random.RandomState(g['nseed'] % (2 ** 31)).shuffle(order)
+        got = {k: getattr(o, k) for k in order}
+        impl = {'acoeff': np.asarray(got['acoeff'], dtype=float), 'chi2': float(got['chi2']), 'yfit': np.asarray(got['yfit'], dtype=float),
+                'dof': int(got['dof']), 'covar': np.asarray(got['covar'], dtype=float), 'var': np.asarray(got['var'], dtype=float)}
+    except Exception as e:
+        ctx.count('chi2v:err')
+        ctx.violate('chi2v:exception:' + core.exc_kind(e), 'computechi2 raised %r for a one-dimensional amatrix of length %d' % (e, n), full)
+        return
+    ctx.count('chi2v:ok')
+    if _snap(a, b, sq) != before:
+        ctx.violate('chi2:input-modified', 'computechi2 modified its input arrays', full)
+    r = yield {'p': 'C15', 'op': 'chi2v', 'n': n, 'b': _bits(b), 'sq': _bits(sq), 'a': _bits(a)}
+    if 'driver_error' in r:
+        raise core.DriverError(str(r))
+    chis = max(1.0, float(np.sum((b * sq) ** 2)))
+    shapes = {'acoeff': (1,), 'yfit': (n,), 'covar': (1, 1), 'var': (1,)}
+    for k, shp in shapes.items():
+        if impl[k].shape != shp:
+            ctx.violate('chi2v:shape:' + k, '%s has shape %s for a one-dimensional amatrix of length %d (expected %s)' % (k, impl[k].shape, n, shp), full)
+            return
+        if not _near(impl[k], _unbits(r[k]).reshape(shp), TOL):
+            ctx.disagree('chi2v:' + k, c, _lst(impl[k]), _lst(_unbits(r[k])))
+    if abs(impl['chi2'] - float(_unbits([r['chi2']])[0])) > TOL * chis:
+        ctx.disagree('chi2v:chi2', c, impl['chi2'], float(_unbits([r['chi2']])[0]))
+    if impl['dof'] != r['dof']:
+        ctx.disagree('chi2v:dof', c, impl['dof'], r['dof'])
+    # oracle: exact rational one-parameter weighted least squares
+    xe, inve, chie = _exact_wls(a.reshape(n, 1), b, sq)
+    if not _near(impl['acoeff'], xe, TOL):
+        ctx.violate('chi2v:acoeff', 'coefficient %s differs from sum(w a b)/sum(w a a) = %s' % (_lst(impl['acoeff']), _lst(xe)), full)
+    if not _near(impl['covar'], inve, TOL) or not np.array_equal(impl['var'], np.diag(impl['covar'])):
+        ctx.violate('chi2v:covar', 'covar / var is not 1 / sum(w a a)', full)
+    if abs(impl['chi2'] - chie) > TOL * chis:
+        ctx.violate('chi2v:chi2', 'chi2 %r differs from the exact minimum %r' % (impl['chi2'], chie), full)
+    if not _near(impl['yfit'], a * xe[0], TOL):
+        ctx.violate('chi2v:yfit', 'yfit differs from a * x', full)
+    if impl['dof'] != int((sq > 0).sum()) - 1:
+        ctx.violate('chi2v:dof', 'dof %d != #(sqivar>0) - 1' % impl['dof'], full)
+
+
+def _chi2v(ctx, cases=None):
+    if cases is None:
+        cases = []
+        for i in range(ctx.n(30, 1000)):
+            cases.append({'stream': 'chi2v', 'gen': {'nseed': ctx.rng.getrandbits(32), 'n': ctx.rng.choice([1, 2, 3, 5, 8, 13, 21, 40]) if i % 4 else ctx.rng.randrange(1, 41),
+                                                    'ascale': ctx.rng.choice([0.3, 1.0, 10.0]), 'offset': ctx.rng.choice([0.0, 2.0]),
+                                                    'pzero': ctx.rng.choice([0.0, 0.2, 0.5]), 'signal': ctx.rng.choice([0.0, 1.0, 10.0])}})
+    _run_stream(ctx, _chi2v_case, cases)
+
+
 # ---------------------------------------------------------------- pcomp
 def _gen_pcomp(g):
     rs = np.random.RandomState(g['nseed'])
@@ -371,6 +458,11 @@ def _pcomp_case(ctx, c):
         ctx.violate('pcomp:variance-sum', 'variance fractions sum to %r' % float(np.sum(impl['variance'])), full)
     if not _near(impl['variance'], ev / np.trace(C), TOL):
         ctx.violate('pcomp:variance', 'variance fractions are not eigenvalue / trace', full)
+    if g['covariance']:
+        # derived variables are uncorrelated: their covariance is diag(eigenvalue^2) (components are scaled by sqrt(eigenvalue))
+        ctx.count('pcomp:uncorrelated-checks')
+        if not _near(np.atleast_2d(np.cov(impl['derived'], rowvar=0)), np.diag(ev ** 2), TOL):
+            ctx.violate('pcomp:derived-correlated:' + mode, 'covariance of the derived variables is not diag(eigenvalues^2)', full)
     if not _near(impl['derived'], data @ cf, TOL):
         ctx.violate('pcomp:derived:' + mode, 'derived variables are not (%sdata) . coefficients: max deviation %.3g'
                     % ('standardized ' if g['standardize'] else '', float(np.max(np.abs(impl['derived'] - data @ cf)))), full)
@@ -542,6 +634,23 @@ def _hmf_step_case(ctx, c):
             ctx.violate('hmf:gstep-gradient', 'gradient of badness wrt g after gstep is %.3g (before: %.3g)' % (np.abs(gr).max(), gref), full)
     else:
         ctx.count('hmf:gstep-eps>0:badness-' + ('decreased' if bg <= b0 else 'increased'))
+    # one whole sweep of iterate in the default mode without smoothing (astep; gstep; reorder; renormalise):
+    # badness does not increase, the rotation and the normalisation do not change it
+    if not nn and not on:
+        h2 = _mk_hmf(s, w, K, eps, nn)
+        h2.a, h2.g = a.copy(), g.copy()
+        h2.a = h2.astep()
+        h2.g = h2.gstep()
+        b_ag = _bad(s, w, h2.a, h2.g, eps)
+        h2.a, h2.g = h2.reorder()
+        nb2 = h2.normbase()
+        a2, g2 = h2.a * nb2[None, :], h2.g / nb2[:, None]
+        bs = _bad(s, w, a2, g2, eps)
+        ctx.count('hmf:whole-sweep-checks')
+        if bs > b0 * (1 + 1e-10) + 1e-12:
+            ctx.violate('hmf:sweep-increases', 'badness increased over one sweep astep; gstep; reorder; renormalise: %r -> %r' % (b0, bs), full)
+        if abs(bs - b_ag) > 1e-8 * max(1.0, b_ag):
+            ctx.violate('hmf:sweep-rotation-changes-badness', 'reorder + renormalise changed badness: %r -> %r' % (b_ag, bs), full)
     # normalisation, rotation
     nb = impl['normbase']
     g1 = g / nb[:, None]
@@ -587,25 +696,100 @@ def _solve_once(s, w, K, eps, nn, n_iter, seed):
     return h, out, rec.get('g0')
 
 
+def _longest_block(good):
+    """statement of find_contiguous: first longest run of consecutive True (start, length); None when there is none"""
+    best = None
+    j = 0
+    n = len(good)
+    while j < n:
+        if good[j]:
+            k = j
+            while k < n and good[k]:
+                k += 1
+            if best is None or k - j > best[1]:
+                best = (j, k - j)
+            j = k
+        else:
+            j += 1
+    return best
+
+
+def _inject_zero_columns(s, w, g_):
+    """all-zero columns as HMF.iterate has to remove them: in spectra, in invvar, or a column whose spectra*invvar vanishes
+    (spectra non-zero only where invvar is zero); at an edge, in the middle, several, or splitting the range in equal halves"""
+    kind = g_.get('zcols', 'none')
+    if kind == 'none':
+        return s, w, []
+    rs = np.random.RandomState(g_['nseed'] ^ 0x5bd1e995)
+    N, M = s.shape
+    if kind == 'edge':
+        cols = list(range(rs.randint(1, 3))) if rs.uniform() < 0.5 else list(range(M - rs.randint(1, 3), M))
+    elif kind == 'both-edges':
+        cols = [0, M - 1]
+    elif kind == 'mid':
+        cols = [int(rs.randint(2, M - 2))]
+    elif kind == 'halves':
+        cols = [M // 2] if M % 2 == 1 else [M // 2 - 1, M // 2]        # two runs of equal length: the first one is kept
+    else:   # 'multi'
+        cols = sorted(set(int(x) for x in rs.randint(0, M, size=3)))
+    s, w = s.copy(), w.copy()
+    for j in cols:
+        how = rs.randint(0, 3)
+        if how == 0:
+            s[:, j] = 0.0
+        elif how == 1:
+            w[:, j] = 0.0
+        else:
+            keep = rs.uniform(size=N) < 0.5
+            keep[0], keep[1] = True, False
+            w[keep, j] = 0.0
+            s[~keep, j] = 0.0
+    return s, w, cols
+
+
 def _hmf_solve_case(ctx, c):
     g_ = c['gen']
     s, w, _, _ = _gen_spectra(g_)
-    N, M = s.shape
+    s, w, zc = _inject_zero_columns(s, w, g_)
+    Nfull, Mfull = s.shape
     K, eps, nn, n_iter, seed = g_['K'], g_['eps'], g_['nonneg'], g_['n_iter'], g_['seed']
+    sfull, wfull = s, w
+    zerocol = (s.sum(0) == 0) | (w.sum(0) == 0) | ((s * w).sum(0) == 0)
+    blk = _longest_block(~zerocol)
+    goodpix = (wfull > 0)[:, blk[0]:blk[0] + blk[1]] if blk is not None else None
+    if blk is None or blk[1] < 3 * K + 3 or goodpix.sum(0).min() < K + 2 or goodpix.sum(1).min() < K + 2:
+        # the block that is left must meet the same conditions as an input without zero columns (enough good pixels per
+        # spectrum and per column for non-singular a-/g-step systems)
+        ctx.count('hmf_solve:generator-gave-up')
+        return
+    # the block the statement is about
+    s, w = np.ascontiguousarray(sfull[:, blk[0]:blk[0] + blk[1]]), np.ascontiguousarray(wfull[:, blk[0]:blk[0] + blk[1]])
+    N, M = s.shape
     ctx.seen(c)
     mode = 'nn' if nn else 'default'
-    full = dict(c, input={'spectra': _lst(s), 'invvar': _lst(w)})
-    s1, w1 = s.copy(), w.copy()
+    ctx.count('hmf_solve:zero-columns=%s' % g_.get('zcols', 'none'))
+    full = dict(c, input={'spectra': _lst(sfull), 'invvar': _lst(wfull)})
+    s1, w1 = sfull.copy(), wfull.copy()
     before = _snap(s1, w1)
     try:
         h, out, g0 = _solve_once(s1, w1, K, eps, nn, n_iter, seed)
     except Exception as e:
         ctx.count('hmf_solve:%s:err' % mode)
-        ctx.violate('hmf_solve:exception:' + core.exc_kind(e), 'HMF.solve raised %r' % e, full)
+        ctx.violate('hmf_solve:exception:' + core.exc_kind(e) + (':zero-columns' if zc else ''),
+                    'HMF.solve raised %r (zero columns %s of %d; longest block of good columns starts at %d, length %d)' % (e, zc, Mfull, blk[0], blk[1]), full)
+        if zc:
+            # the column selection alone is still compared with the model
+            r = yield {'p': 'C15', 'op': 'hmf_zerocols', 'N': Nfull, 'M': Mfull, 's': _bits(sfull), 'w': _bits(wfull), 'nonneg': nn}
+            if (r.get('col0'), r.get('ncol'), r.get('nzero')) != (blk[0], blk[1], int(zerocol.sum())):
+                ctx.disagree('hmf_solve:columns', c, [blk[0], blk[1], int(zerocol.sum())], [r.get('col0'), r.get('ncol'), r.get('nzero')])
         return
-    if g0 is None or g0.shape != (K, M):
+    if g0 is None or g0.shape[0] != K:
         # scipy's kmeans drops empty clusters: outside the contract "K centroids"
         ctx.count('hmf_solve:%s:kmeans-returned-fewer-centroids' % mode)
+        return
+    if np.asarray(out['flux']).shape != (K, M) or np.asarray(out['acoeff']).shape != (N, K) or g0.shape != (K, M):
+        ctx.violate('hmf_solve:shape', 'solve returned flux %s / acoeff %s; the longest block of good columns has %d columns (zero columns %s)'
+                    % (np.asarray(out['flux']).shape, np.asarray(out['acoeff']).shape, M, zc), full)
         return
     ctx.count('hmf_solve:%s:ok' % mode)
     a, g = np.array(out['acoeff']), np.array(out['flux'])
@@ -613,15 +797,21 @@ def _hmf_solve_case(ctx, c):
     if _snap(s1, w1) != before:
         ctx.violate('hmf_solve:caller-arrays-modified:' + mode, 'HMF.solve modified the spectra / invvar arrays of the caller', full)
     # same seed -> identical results
-    h2, out2, g02 = _solve_once(s.copy(), w.copy(), K, eps, nn, n_iter, seed)
+    h2, out2, g02 = _solve_once(sfull.copy(), wfull.copy(), K, eps, nn, n_iter, seed)
     if not (np.array_equal(out2['acoeff'], out['acoeff']) and np.array_equal(out2['flux'], out['flux'])):
         ctx.violate('hmf_solve:seed-not-reproducible', 'two runs with seed=%d differ (max |d flux| = %.3g)'
                     % (seed, float(np.max(np.abs(np.array(out2['flux']) - g)))), full)
     # model from the recorded k-means start
-    r = yield {'p': 'C15', 'op': 'hmf_iter', 'N': N, 'M': M, 'K': K, 'n_iter': n_iter, 's': _bits(s), 'w': _bits(w),
+    r = yield {'p': 'C15', 'op': 'hmf_cols', 'N': Nfull, 'M': Mfull, 'K': K, 'n_iter': n_iter, 's': _bits(sfull), 'w': _bits(wfull),
                       'g0': _bits(g0), 'nonneg': nn, 'eps': None if eps is None else core.f2b(eps)}
     if 'driver_error' in r:
         raise core.DriverError(str(r))
+    if 'err' in r:
+        ctx.disagree('hmf_solve:model-refuses', c, 'ok', r['err'])
+        return
+    if (r['col0'], r['ncol'], r['nzero']) != (blk[0], blk[1], int(zerocol.sum())) or g.shape != (K, r['ncol']):
+        ctx.disagree('hmf_solve:columns', c, [list(g.shape), blk[0], blk[1], int(zerocol.sum())], [r['col0'], r['ncol'], r['nzero']])
+        return
     ma, mg = _unbits(r['a']).reshape(N, K), _unbits(r['g']).reshape(K, M)
     if not nn:
         sg = _align(g, mg, 1)
@@ -658,10 +848,14 @@ def _hmf_solve(ctx, cases=None):
         for i in range(ctx.n(40, 1000)):
             K = ctx.rng.choice([1, 2, 3, 4])
             nn = i % 2 == 1
+            zcols = ctx.rng.choice(['none', 'none', 'edge', 'both-edges', 'mid', 'halves', 'multi'])
+            wide = zcols in ('mid', 'halves', 'multi')
             cases.append({'stream': 'hmf_solve', 'gen': {
-                'nseed': ctx.rng.getrandbits(32), 'K': K, 'N': ctx.rng.randrange(4 * K + 4, 28), 'M': ctx.rng.randrange(3 * K + 3, 26),
+                'nseed': ctx.rng.getrandbits(32), 'K': K, 'N': ctx.rng.randrange(4 * K + 4, 28),
+                'M': ctx.rng.randrange(6 * K + 10, 44) if wide else ctx.rng.randrange(3 * K + 5, 26),
                 'noise': ctx.rng.choice([0.02, 0.1]), 'pmask': ctx.rng.choice([0.0, 0.1, 0.2]), 'nonneg': nn,
                 'eps': ctx.rng.choice([None, None, 0.0, 1.0, 50.0]), 'n_iter': ctx.rng.choice([1, 2, 3, 5]),
+                'zcols': zcols,
                 'seed': ctx.rng.choice([0, 0, 1, ctx.rng.randrange(0, 10000), ctx.rng.randrange(0, 10000)])}})
     _run_stream(ctx, _hmf_solve_case, cases)
 
@@ -685,6 +879,20 @@ def _gen_pca(g):
         ev = np.sort(np.linalg.eigvalsh(np.corrcoef(flux)))[::-1]
         gaps = -np.diff(ev[:nk + 1]) / ev[0]
         if gaps.min() > 0.02:
+            # objects WITHOUT signal (goodobj False): a constant spectrum (bad in the first pass only: the refill makes it
+            # vary) or an all-zero spectrum (stays bad); an object without any good pixel (the code rejects it: ValueError)
+            bad = g.get('badobj', 'none')
+            if bad != 'none':
+                idx = g['badidx'] % nobj
+                if bad == 'const':
+                    flux[idx, :] = float(rs.choice([1.0, -2.5, 0.75]))
+                elif bad == 'zero':
+                    flux[idx, :] = 0.0
+                elif bad == 'two':
+                    flux[idx, :] = 0.0
+                    flux[(idx + 2) % nobj, :] = 1.5
+                elif bad == 'nogood':
+                    ivar[idx, :] = 0.0
             return flux, ivar
     raise RuntimeError('generator: no spectra with separated leading eigenvalues')
 
@@ -695,38 +903,65 @@ def _pca_case(ctx, c):
     flux, ivar = _gen_pca(g)
     nobj, npix = flux.shape
     nk, niter = g['nkeep'], g['niter']
+    maxiter = g.get('maxiter', 0)
+    bad = g.get('badobj', 'none')
     ctx.seen(c)
     full = dict(c, input={'newflux': _lst(flux), 'newivar': _lst(ivar)})
     before = _snap(flux, ivar)
+    line = {'p': 'C15', 'op': 'pca_max', 'nobj': nobj, 'npix': npix, 'niter': niter, 'nkeep': nk, 'maxiter': maxiter,
+            'flux': _bits(flux), 'ivar': _bits(ivar)}
     try:
-        out = pca_solve(flux, ivar, niter=niter, nkeep=nk)
+        out = pca_solve(flux, ivar, maxiter=maxiter, niter=niter, nkeep=nk)
     except Exception as e:
-        ctx.count('pca:err')
-        ctx.violate('pca:exception:' + core.exc_kind(e), 'pca_solve raised %r' % e, full)
+        kind = core.exc_kind(e)
+        ctx.count('pca:err:%s:badobj=%s' % (kind, bad))
+        if bad == 'nogood' and kind == 'ValueError':
+            # an object without a single good pixel is rejected by the code; the model must reject it too
+            r = yield line
+            if r.get('err') != 'ValueError':
+                ctx.disagree('pca:rejects-object-without-good-pixel', c, 'ValueError', r.get('err', 'ok'))
+            return
+        ctx.violate('pca:exception:' + kind + (':badobj=' + bad if bad != 'none' else ''),
+                    'pca_solve raised %r (objects without signal: %s, maxiter %d)' % (e, bad, maxiter), full)
         return
     ctx.count('pca:nkeep=%d:niter=%d' % (nk, niter))
+    ctx.count('pca:maxiter=%d' % maxiter)
+    ctx.count('pca:badobj=%s' % bad)
+    if bad == 'nogood':
+        ctx.violate('pca:accepts-object-without-good-pixel', 'pca_solve returned a result for an object whose inverse variance is zero everywhere', full)
+        return
     if _snap(flux, ivar) != before:
         ctx.violate('pca:input-modified', 'pca_solve modified newflux / newivar', full)
-    r = yield {'p': 'C15', 'op': 'pca', 'nobj': nobj, 'npix': npix, 'niter': niter, 'nkeep': nk, 'flux': _bits(flux),
-                      'ivar': _bits(ivar)}
+    r = yield line
     if 'driver_error' in r:
         raise core.DriverError(str(r))
     eflux = np.array(out['flux'], dtype=float)          # nkeep x npix, float32 values
-    if 'err' in r:
-        ctx.disagree('pca:model-refuses', c, 'ok', r['err'])
+    if 'err' in r or 'single' in r:
+        ctx.disagree('pca:model-refuses', c, 'ok', r.get('err', 'single'))
     else:
+        ctx.count('pca:model:outer-passes=%d' % r['passes'])
+        ctx.count('pca:model:last-pass-objects-without-signal=%d' % (nobj - r['ngood']))
+        mev = _unbits(r['eigenval'])
+        # eigenvectors of (nearly) coincident eigenvalues are not determined: such a case is compared through the oracle only
+        lead = mev[:nk + 1] if mev.size > nk else mev
+        degenerate = lead.size > 1 and float(np.min(-np.diff(lead))) < 1e-3 * float(abs(lead[0]))
         mp = _unbits(r['pres']).reshape(npix, nobj)[:, :nk].T
         mac = _unbits(r['acoeff']).reshape(nobj, nk)
         sg = _align(eflux, mp, 1)
         mp, mac = mp * sg[:, None], mac * sg[None, :]
         if list(np.asarray(out['usemask']).tolist()) != r['usemask']:
             ctx.disagree('pca:usemask', c, _lst(out['usemask']), r['usemask'])
-        if not _near(eflux, mp.astype('f').astype(float), 1e-5):
-            ctx.disagree('pca:flux', c, _lst(eflux[0][:6]), _lst(mp[0][:6]))
-        if not _near(out['acoeff'], mac, 1e-5):
-            ctx.disagree('pca:acoeff', c, _lst(out['acoeff'][:3]), _lst(mac[:3]))
-        if not _near(out['eigenval'], _unbits(r['eigenval'])[:nk], 1e-5):
-            ctx.disagree('pca:eigenval', c, _lst(out['eigenval']), _lst(_unbits(r['eigenval'])[:nk]))
+        if np.asarray(out['outmask']).tolist() != r['outmask']:
+            ctx.disagree('pca:outmask', c, 'impl', 'model')
+        if degenerate:
+            ctx.count('pca:near-degenerate-eigenvalues:oracle-only')
+        else:
+            if not _near(eflux, mp.astype('f').astype(float), 1e-5):
+                ctx.disagree('pca:flux', c, _lst(eflux[0][:6]), _lst(mp[0][:6]))
+            if not _near(out['acoeff'], mac, 1e-5):
+                ctx.disagree('pca:acoeff', c, _lst(out['acoeff'][:3]), _lst(mac[:3]))
+        if not _near(out['eigenval'], mev[:nk], 1e-5):
+            ctx.disagree('pca:eigenval', c, _lst(out['eigenval']), _lst(mev[:nk]))
     # ---------------- oracle
     if not np.array_equal(np.asarray(out['usemask']), (ivar != 0).sum(0)):
         ctx.violate('pca:usemask', 'usemask is not the number of good spectra per pixel', full)
@@ -736,8 +971,15 @@ def _pca_case(ctx, c):
     if ac.shape != (nobj, nk) or eflux.shape != (nk, npix):
         ctx.violate('pca:shape', 'unexpected shapes %s %s' % (ac.shape, eflux.shape), full)
         return
+    if not (np.all(np.isfinite(ac)) and np.all(np.isfinite(eflux))):
+        ctx.violate('pca:non-finite', 'acoeff / eigenspectra contain non-finite values (objects without signal: %s)' % bad, full)
+        return
+    # the weights of the LAST outer iteration: newivar * outmask (with no rejection limits outmask = (newivar != 0))
+    wlast = ivar * np.asarray(out['outmask'])
+    if not np.array_equal(np.asarray(out['outmask']), ivar != 0):
+        ctx.violate('pca:outmask', 'outmask differs from (newivar != 0) although no rejection limit is set (maxiter %d)' % maxiter, full)
     for i in range(nobj):
-        sw = np.sqrt(ivar[i])
+        sw = np.sqrt(wlast[i])
         proj = np.linalg.lstsq(eflux.T * sw[:, None], flux[i] * sw, rcond=None)[0]
         if not _near(ac[i], proj, TOL_F32):
             ctx.violate('pca:acoeff-not-projection', 'acoeff[%d] = %s is not the inverse-variance weighted projection %s on the returned eigenspectra'
@@ -748,17 +990,19 @@ def _pca_case(ctx, c):
 def _pca(ctx, cases=None):
     if cases is None:
         cases = []
-        for i in range(ctx.n(40, 1500)):
+        for i in range(ctx.n(50, 1500)):
             nk = ctx.rng.choice([1, 2, 2, 3])
             cases.append({'stream': 'pca', 'gen': {
-                'nseed': ctx.rng.getrandbits(32), 'nkeep': nk, 'nobj': ctx.rng.randrange(nk + 3, 12), 'npix': ctx.rng.randrange(20, 50),
+                'nseed': ctx.rng.getrandbits(32), 'nkeep': nk, 'nobj': ctx.rng.randrange(nk + 4, 12), 'npix': ctx.rng.randrange(20, 50),
                 'noise': ctx.rng.choice([0.02, 0.05]), 'pmask': ctx.rng.choice([0.0, 0.05, 0.15]), 'deadpix': ctx.rng.random() < 0.3,
-                'niter': ctx.rng.choice([1, 2, 3, 4])}})
+                'niter': ctx.rng.choice([1, 2, 3, 4]), 'maxiter': ctx.rng.choice([0, 0, 1, 2, 3]),
+                'badobj': ctx.rng.choice(['none', 'none', 'none', 'const', 'const', 'zero', 'two', 'nogood']),
+                'badidx': ctx.rng.randrange(0, 12)}})
     _run_stream(ctx, _pca_case, cases)
 
 
 # ---------------------------------------------------------------- the check
-STREAMS = {'chi2': _chi2, 'pcomp': _pcomp, 'hmf_step': _hmf_step, 'hmf_solve': _hmf_solve, 'pca': _pca}
+STREAMS = {'chi2': _chi2, 'chi2v': _chi2v, 'pcomp': _pcomp, 'hmf_step': _hmf_step, 'hmf_solve': _hmf_solve, 'pca': _pca}
 
 
 def _quiet():
